@@ -16,6 +16,7 @@ import (
 
 	structform "github.com/elastic/go-structform"
 	"github.com/elastic/go-structform/gotype"
+	"github.com/elastic/go-structform/visitors"
 
 	"verif/engines/common"
 	"verif/engines/reuse"
@@ -67,9 +68,104 @@ func writeDoc(c *simkit.Choices, f model.Format, v model.Val) []byte {
 	return model.WriteUBJSONStream(c, []model.Val{v}, st).Bytes
 }
 
+// withByte completes visitors.StringConvVisitor to a structform.Visitor (it
+// has every method but OnByte).
+type withByte struct{ *visitors.StringConvVisitor }
+
+func (w withByte) OnByte(b byte) error { return w.OnUint8(b) }
+
+// stringConv: parser -> visitors.StringConvVisitor -> Unfolder. Every scalar
+// arrives as a string (null "", booleans true/false, integers in decimal);
+// the strings the helper MAKES are stored in the target like any other and
+// must stay what they were when later values are converted.
+func stringConv(c *simkit.Choices, x *simkit.Ctx) *simkit.Violation {
+	st := x.Stats
+	f := model.Formats[c.N(3)]
+	cd := common.ByName(f)
+	var want func(depth int) (model.Val, interface{})
+	want = func(depth int) (model.Val, interface{}) {
+		switch k := c.N(7); {
+		case k == 0:
+			return model.Val{K: model.VNull}, ""
+		case k == 1:
+			b := c.Bool()
+			return model.Bool(b), fmt.Sprint(b)
+		case k == 2:
+			s := model.GenText(c, 12)
+			return model.Text(s), s
+		case k <= 4 || depth >= 2:
+			v := model.GenInt(c)
+			if !v.FitsInt64() && (v.Neg || f == model.JSON) {
+				v = model.Int(int64(c.N(100000)))
+			}
+			return v, v.IntString()
+		case k == 5:
+			a := model.Val{K: model.VArr}
+			out := []interface{}{}
+			for i, n := 0, 1+c.N(6); i < n; i++ {
+				v, w := want(depth + 1)
+				a.A = append(a.A, v)
+				out = append(out, w)
+			}
+			return a, out
+		default:
+			key := model.GenKey(c, 6)
+			v, w := want(depth + 1)
+			return model.Val{K: model.VObj, Keys: []string{key}, A: []model.Val{v}}, map[string]interface{}{key: w}
+		}
+	}
+	arr := model.Val{K: model.VArr}
+	exp := []interface{}{}
+	for i, n := 0, 2+c.N(8); i < n; i++ {
+		v, w := want(0)
+		arr.A = append(arr.A, v)
+		exp = append(exp, w)
+	}
+	d := writeDoc(c, f, arr)
+	var cuts []int
+	for j, k := 0, c.N(4); j < k; j++ {
+		cuts = append(cuts, c.N(len(d)+1))
+	}
+	sortInts(cuts)
+	sc := &Scenario{Mode: "stringconv", Format: string(f), Target: "interface{}", Docs: []string{hex.EncodeToString(d)}, Cuts: [][]int{cuts}, Entry: "write"}
+	simkit.SetCurrent(sc)
+	st.Eval(1)
+	st.Fault("chunk-buffer-scribbled-after-write")
+	st.Distinct(simkit.NewDigest().Str("stringconv" + string(f)).Bytes(d).Ints(cuts).Sum())
+	var got interface{}
+	var err error
+	pi := simkit.Guard(func() {
+		u, e := gotype.NewUnfolder(&got)
+		if e != nil {
+			err = e
+			return
+		}
+		conv := visitors.NewStringConvVisitor(structform.EnsureExtVisitor(u))
+		_, err = simkit.Feed(cd.NewParser(withByte{conv}), d, cuts, true, &x.Clock)
+		runtime.GC()
+	})
+	site := "stringconv/" + string(f)
+	if pi != nil {
+		return &simkit.Violation{Kind: "panic", Site: site + pi.Site, Detail: pi.Value + "\n" + pi.Stack, Scenario: sc}
+	}
+	if err != nil {
+		st.Probe("stringconv-refused")
+		return nil
+	}
+	if !model.DeepEq(exp, got) {
+		return &simkit.Violation{Kind: "alias", Site: site,
+			Detail: fmt.Sprintf("values converted to strings by visitors.StringConvVisitor and stored by the unfolder: want %s | got %s", model.Render(exp), model.Render(got)), Scenario: sc}
+	}
+	st.Probe("stringconv-exact")
+	return nil
+}
+
 func (Engine) Run(c *simkit.Choices, x *simkit.Ctx) *simkit.Violation {
 	if c.N(5) == 0 {
 		return encodeGC(c, x)
+	}
+	if c.N(25) == 0 {
+		return stringConv(c, x)
 	}
 	return unfoldAlias(c, x)
 }
